@@ -281,7 +281,7 @@ def make_blocks(spec):
                 b = b + 1j * rng.normal(size=shape)
             if kind == "wide":
                 # blocks of very different magnitude (dynamic range ~1e8)
-                b = b * 10.0 ** int(rng.integers(-5, 4))
+                b = b * 10.0 ** int(rng.integers(-9, 4))
         elif kind == "pos":
             b = rng.integers(1, 6, size=shape).astype("float64")
         elif kind == "lowrank":
